@@ -7,7 +7,7 @@ evidence can tell injected from merely configured faults.
 import random
 
 KINDS = ("truncate", "pipe_eof", "bitflip", "set", "pad", "sector_zero", "sector_drop",
-         "sector_dup", "blob", "insert", "delete", "swap", "concat")
+         "sector_dup", "blob", "insert", "delete", "swap", "concat", "balance")
 # "replace" (the bytes of a valid file of ANOTHER format) is drawn by the case generator,
 # not by gen_plan, because it needs a second encoder
 SECTOR = 256
@@ -85,6 +85,16 @@ def apply_fault(f, data: bytes):
         b = bytearray(data)
         b[at], b[at + 1] = b[at + 1], b[at]
         return bytes(b), [at], True
+    if k == "balance":     # two coordinated corruptions that keep a total: +k here, -k there
+        if n < 2:
+            return data, [], False
+        a, b2 = _clamp(f["a"], n), _clamp(f["b"], n)
+        if a == b2:
+            return data, [], False
+        bb = bytearray(data)
+        bb[a] = (bb[a] + f["k"]) & 255
+        bb[b2] = (bb[b2] - f["k"]) & 255
+        return bytes(bb), sorted((a, b2)), True
     if k == "concat":      # the file followed by a slice of itself: a botched append/merge whose
         a = min(max(0, f.get("from", 0)), n)   # tail looks like further records / runs / pages
         tail = data[a:a + f["n"]]
@@ -134,7 +144,7 @@ def _offset(rng, case_len, offs):
     """offs = (all structural offsets, {header kind: offsets}).  A quarter of the draws pick a
     header *kind* first (magic, size, palette, flag, title, page start) and then one of its
     bytes, so that the single magic byte is hit as often as the sixteen palette bytes."""
-    allo, hdr = offs
+    allo, hdr = offs[0], offs[1]
     c = rng.random()
     if hdr and c < 0.25:
         kind = rng.choice(sorted(hdr))
@@ -176,6 +186,14 @@ def gen_fault(rng, kind, n, offs):
         return {"kind": kind, "at": _offset(rng, n, offs), "val": rng.choice((0, 0xFF, rng.getrandbits(8)))}
     if kind in ("delete", "swap"):
         return {"kind": kind, "at": _offset(rng, max(0, n - 1), offs)}
+    if kind == "balance":
+        ctrl = offs[2] if len(offs) > 2 and len(offs[2]) >= 2 else None
+        if ctrl:
+            i = rng.randrange(len(ctrl) - 1)
+            a, b = ctrl[i], ctrl[min(len(ctrl) - 1, i + rng.choice((1, 1, 2, 5)))]
+        else:
+            a, b = _offset(rng, max(0, n - 1), offs), _offset(rng, max(0, n - 1), offs)
+        return {"kind": kind, "a": a, "b": b, "k": rng.choice((1, 1, 2, 5, 16, 80, 160))}
     if kind == "concat":
         return {"kind": kind, "n": rng.choice((1, 2, 3, 16, 51, 162, n, rng.randint(0, max(1, n)))),
                 "from": rng.choice((0, 0, _offset(rng, max(0, n - 1), offs)))}
@@ -197,7 +215,7 @@ def gen_plan(rng, case, enabled=None):
     for o, k in case.smap:
         if k in HEADER_KINDS:
             hdr.setdefault(k, []).append(o)
-    offs = (case.offsets(), hdr)
+    offs = (case.offsets(), hdr, case.offsets(("ctrl", "size")))
     weighted = [k for k in kinds for _ in range(WEIGHT.get(k, 1))]
     for _ in range(nf):
         k = rng.choice(weighted)
